@@ -48,6 +48,25 @@ def check_function(ck, prog, rule, fname, extra_caps=None, assume=None, min_site
                 elif v is not None and cur is not None and cur[0] == "le":
                     what = "the length returned does not exceed the length the string can have"
                     an.oblige_fact(st, n, "return", _le(v, cur[1]), what, key=("retlen", n.id))
+                elif v is not None and cur is None:
+                    # nothing is known about a NUL in the buffer: fine only if the result cannot be shorter than the buffer
+                    # (paths taken because an argument pointer is NULL are not calls the property speaks about)
+                    cap = an.cap_of(st, key)
+                    nullpath = False
+                    for nid, pol in st.decisions.items():
+                        nd = f.nodes.get(nid)
+                        if nd is None:
+                            continue
+                        x = nd.strip_all_casts()
+                        neg = False
+                        while x.k == "UnaryOperator" and x.get("op") == "!":
+                            neg = not neg
+                            x = x.child(0).strip_all_casts()
+                        if x.k == "DeclRefExpr" and x.get("decl", {}).get("kind") == "param" and x.get("tk") == "ptr" and (pol == neg):
+                            nullpath = True
+                    if cap is not None and not nullpath:
+                        what = "a NUL terminates the result whenever it is shorter than the buffer"
+                        an.oblige_fact(st, n, "return", _le(cap, v), what, key=("retnul", n.id))
             return orig(st, n)
         an.do_elem = hook
     try:
